@@ -625,6 +625,17 @@ func registerSnapshotIntrinsics() {
 				}
 			}
 		}
+		// the literal document null (exact encoding/json semantics): no error; a target of
+		// pointer / map / slice / interface type is set to nil, any other target is left alone
+		if concrete && strings.Trim(txt, " \t\r\n") == "null" {
+			if pt, isPtr := tgt.typ.Underlying().(*types.Pointer); isPtr && !tgt.val.(PtrV).isNil() {
+				switch pt.Elem().Underlying().(type) {
+				case *types.Pointer, *types.Map, *types.Slice, *types.Interface:
+					x.store(st, tgt.val.(PtrV), x.zero(pt.Elem()))
+				}
+				return ret1(IfaceV{})
+			}
+		}
 		// unknown document: error or (abstractly) success without effect
 		if x.chooseN(st, 2, "json.Unmarshal outcome") == 0 {
 			return ret1(x.mkError(st, x.strConst("json: cannot unmarshal (abstract)"), nil))
